@@ -204,12 +204,8 @@ func checkC14(p *core.Program, r *core.Report) {
 	// reader
 	okU := false
 	for _, ret := range core.Returns(vsl) {
-		for v := range core.BackSlice(ret.Results[0], nil) {
-			if c, ok := v.(*ssa.Call); ok {
-				if o := core.CalleeObj(&c.Call); o != nil && core.ObjName(o) == "strconv.Unquote" {
-					okU = true
-				}
-			}
+		if core.DerivesFromCallDeep(ret.Results[0], 2, "strconv.Unquote") {
+			okU = true
 		}
 	}
 	r.Check(okU, "R1", "visitor.VisitStringLiteral/strconv.Unquote", p.Pos(vsl.Pos()), "string literals are unquoted with strconv.Unquote (inverse of the writer's strconv.Quote)", "VisitStringLiteral does not unquote with strconv.Unquote while the writers quote with strconv.Quote: backslashes and control characters do not round-trip")
